@@ -9,6 +9,8 @@ import space
 
 
 def run(res, replay=None):
+    # structural tie of the class Transition of phasegen/state_space.py: translate the CURRENT source and re-check proofs/GenTransitionEquiv.v
+    import translate_step; (res.proof is not None) and translate_step.run(res.proof, pid=res.pid, tie='transition')
     rng = random.Random(res.seed)
     res.rule = ('naming stream: structured configurations (2-3 demes, n<=4, three models, 1-2 epochs) given with the sample '
                 'dictionary in unsorted order; every statistic incl. per-population marginals, their covariances and the '
